@@ -250,6 +250,10 @@ func runC03(c *Ctx) {
 		docs = append(docs, g.next())
 		labels = append(labels, "mutated")
 	}
+	for _, d := range attrNameDocs(c) {
+		docs = append(docs, d)
+		labels = append(labels, "attribute-names")
+	}
 	ev.Set("documents", len(docs))
 	cfgs := safeConfigs()
 	ev.Set("configurations", len(cfgs))
@@ -285,8 +289,18 @@ func applyCase(s, pattern string) string {
 	return sch + s[i:]
 }
 
-func concretiseAttack(scheme, cas, obf, pos, construct string) string {
-	u := applyCase(attackURL[scheme], cas)
+// attackTail: what follows "scheme:" (UrlAttack.tla, Tails); the data: URLs keep their own tail
+var attackTail = map[string]string{
+	"slashnl": "//%0aalert(1)", "slashsp": "// alert(1)", "badport": "//host:x/etc/passwd", "badv6": "//[::1/x", "badpct": "//%zz/%",
+	"ctl": "//a\x7fb/\x01", "userinfo": "//u:p@h:99999999999/x", "colononly": "",
+}
+
+func concretiseAttack(scheme, cas, obf, pos, construct, tail string) string {
+	base := attackURL[scheme]
+	if t, ok := attackTail[tail]; ok && !strings.HasPrefix(scheme, "data") {
+		base = base[:strings.Index(base, ":")+1] + t
+	}
+	u := applyCase(base, cas)
 	colon := strings.Index(u, ":")
 	p := 0
 	switch pos {
@@ -405,14 +419,14 @@ func runC04(c *Ctx) {
 	var docs, labels []string
 	r := RunTLC(TLCOpts{Module: "UrlAttack", Cfg: "UrlAttack.cfg", Workers: 8, Timeout: 20 * time.Minute, OnJSON: func(raw []byte) {
 		var t []string
-		if json.Unmarshal(raw, &t) != nil || len(t) != 5 {
+		if json.Unmarshal(raw, &t) != nil || len(t) != 6 {
 			infra("bad attack element %s", raw)
 		}
-		docs = append(docs, concretiseAttack(t[0], t[1], t[2], t[3], t[4]))
-		labels = append(labels, t[4]+"/"+t[2])
+		docs = append(docs, concretiseAttack(t[0], t[1], t[2], t[3], t[4], t[5]))
+		labels = append(labels, t[4]+"/"+t[2]+"/"+t[5])
 	}})
 	r.MustOK("UrlAttack generator")
-	ev.TLC("UrlAttack (scheme x case x obfuscation x position x construct)", r)
+	ev.TLC("UrlAttack (scheme x case x obfuscation x position x construct x tail)", r)
 	nAttack := len(docs)
 	if nAttack == 0 {
 		infra("UrlAttack produced nothing")
@@ -455,4 +469,126 @@ func runC04(c *Ctx) {
 	}
 	ev.Set("configurations", len(cfgs))
 	scanSafe(c, docs, cfgs, func(i int) string { return labels[i] })
+}
+
+// ---------------------------------------------------------------------------------
+// attribute names: the renderer keeps an author-supplied attribute only when its name is in the
+// allow-list of the element (util.BytesFilter); the vocabulary of HtmlOut.tla is the oracle.
+// Candidates are the names a filter is most likely to confuse: every name of one or two letters,
+// every allowed name of ANY element (most are not allowed on a heading), and the neighbours of
+// allowed names - one, two or (thorough) all three of the first three characters replaced by a
+// character that some allowed name has at that position, tail kept; plus truncations and extensions.
+var c03AllowedNames = strings.Fields(`accesskey autocapitalize autofocus class contenteditable dir draggable enterkeyhint hidden id inert inputmode is itemid itemprop itemref itemscope itemtype lang part role slot spellcheck style tabindex title translate
+	abbr align axis bgcolor char charoff colspan headers height rowspan scope valign width cite start reversed type value color noshade size
+	href download hreflang media ping referrerpolicy rel shape target src alt border crossorigin decoding importance intrinsicsize ismap loading sizes srcset usemap
+	cellpadding cellspacing frame rules summary checked disabled onclick onerror onload formaction srcdoc`)
+
+func attrNameDocs(c *Ctx) []string {
+	seen := map[string]bool{}
+	var names []string
+	add := func(n string) {
+		if n != "" && !seen[n] {
+			seen[n] = true
+			names = append(names, n)
+		}
+	}
+	const az = "abcdefghijklmnopqrstuvwxyz"
+	for i := 0; i < 26; i++ {
+		add(az[i : i+1])
+		for j := 0; j < 26; j++ {
+			add(az[i:i+1] + az[j:j+1])
+		}
+	}
+	var pos [3]map[byte]bool
+	for k := range pos {
+		pos[k] = map[byte]bool{}
+	}
+	for _, n := range c03AllowedNames {
+		add(n)
+		add(n[:len(n)-1])
+		add(n + "x")
+		add("x" + n)
+		for k := 0; k < 3 && k < len(n); k++ {
+			pos[k][n[k]] = true
+		}
+	}
+	var alpha [3][]byte
+	for k := range pos {
+		for ch := byte('a'); ch <= 'z'; ch++ {
+			if pos[k][ch] {
+				alpha[k] = append(alpha[k], ch)
+			}
+		}
+	}
+	rng := c.Rand("attrnames")
+	for _, n := range c03AllowedNames {
+		if len(n) < 2 {
+			continue
+		}
+		b := []byte(n)
+		m := 3
+		if len(b) < 3 {
+			m = len(b)
+		}
+		// one and two positions replaced
+		for k := 0; k < m; k++ {
+			for _, ch := range alpha[k] {
+				x := append([]byte{}, b...)
+				x[k] = ch
+				add(string(x))
+				for k2 := k + 1; k2 < m; k2++ {
+					for _, ch2 := range alpha[k2] {
+						y := append([]byte{}, x...)
+						y[k2] = ch2
+						if c.Thorough() || rng.Intn(4) == 0 {
+							add(string(y))
+						}
+					}
+				}
+			}
+		}
+		if m == 3 {
+			for _, c0 := range alpha[0] {
+				for _, c1 := range alpha[1] {
+					for _, c2 := range alpha[2] {
+						if c.Thorough() || rng.Intn(12) == 0 {
+							x := append([]byte{}, b...)
+							x[0], x[1], x[2] = c0, c1, c2
+							add(string(x))
+						}
+					}
+				}
+			}
+		}
+	}
+	if c.Thorough() {
+		for i := 0; i < 26; i++ {
+			for j := 0; j < 26; j++ {
+				for k := 0; k < 26; k++ {
+					add(az[i:i+1] + az[j:j+1] + az[k:k+1])
+				}
+			}
+		}
+	}
+	c.Ev.Set("attribute_names_tried", len(names))
+	var docs []string
+	const per = 24
+	for i := 0; i < len(names); i += per {
+		j := i + per
+		if j > len(names) {
+			j = len(names)
+		}
+		var b strings.Builder
+		b.WriteString("# h {")
+		for _, n := range names[i:j] {
+			b.WriteString(n + "=v ")
+		}
+		b.WriteString("}\n")
+		if (i/per)%2 == 1 {
+			docs = append(docs, "t "+strings.TrimPrefix(strings.TrimSuffix(b.String(), "\n"), "# h ")+"\n===\n")
+		} else {
+			docs = append(docs, b.String())
+		}
+	}
+	return docs
 }
